@@ -25,6 +25,16 @@ open Iso
 /-- the map listing `f` along the pattern nodes -/
 def mapOf (S : List Int) (f : Int → Int) : Map := S.map fun u => (u, f u)
 
+/-! ### reading of the graph encoding -/
+
+/-- `ecol` is defined (= the two nodes are adjacent) exactly when the edge list has an entry joining
+them in either direction, it is symmetric, and `ncol` is defined exactly on the node keys. -/
+theorem graph_reading (g : Graph) (u v : Int) :
+    ((g.ecol u v).isSome = true ↔ ∃ e ∈ g.edges, (e.1 = u ∧ e.2.1 = v) ∨ (e.1 = v ∧ e.2.1 = u))
+    ∧ g.ecol u v = g.ecol v u
+    ∧ ((g.ncol u).isSome = true ↔ u ∈ g.keys) :=
+  ⟨ecol_isSome_iff g u v, ecol_comm g u v, ncol_isSome_iff g u⟩
+
 /-! ### symmetry off: sound, complete, exactly once -/
 
 /-- Every mapping of the reference is a genuine induced subgraph isomorphism that respects node
@@ -98,6 +108,16 @@ theorem oneRepPerClass_exactly_one (g sg : Graph) (hs : sg.keys.Nodup) (out : Li
   rcases pairwise_or hpw hm hm' (fun e => hne e.symm) with hr | hr
   · exact hr.1 h1
   · exact hr.2 h1
+
+/-- The checker is satisfiable for every pair of graphs: the greedy list of class representatives
+of the reference answer is accepted (so the number of classes reported by the driver is the
+length of an accepted output). -/
+theorem classReps_accepted (g sg : Graph) (hs : sg.keys.Nodup) :
+    oneRepPerClass sg (classReps sg (allIsos g sg)) (allIsos g sg) = true := by
+  apply Iso.classReps_accepted sg hs
+  intro f hf
+  rw [(allIsos_sound g sg hs f hf).1]
+  exact List.Sublist.refl _
 
 /-! ### largest common induced subgraph -/
 
